@@ -2,13 +2,6 @@
 From TxV Require Import Core.Base Core.Show Model.FrontDefs Model.Front.
 Open Scope string_scope.
 
-Definition show_crash (k : crash) : string :=
-  match k with
-  | KType => "TypeError" | KAttribute => "AttributeError" | KRecursion => "RecursionError"
-  | KUnicode => "UnicodeDecodeError" | KAssertion => "AssertionError" | KKey => "KeyError"
-  | KRe => "error" | KNoMatch => "NoMatch"
-  end.
-
 Definition show_class (c : txclass) : string :=
   match c with CSyntax => "SYN" | CSemantic => "SEM" | CPlain => "PLAIN" | CRegistration => "REG" end.
 
@@ -17,14 +10,14 @@ Definition show_why (w : why) : string :=
   | WParse => "parse" | WParam => "param" | WWsParam => "wsparam" | WSplit => "split" | WRegex => "regex"
   | WEscape => "escape" | WOptMods => "optmods" | WAsgMods => "asgmods" | WMultiBool => "multibool"
   | WPrimRef => "primref" | WBoolRep => "boolrep" | WBoolMany => "boolmany" | WRuleRef => "ruleref" | WClsRef => "clsref"
-  | WRegistration => "registration"
+  | WRegistration => "registration" | WUserRedef => "userredef" | WUserUnused => "userunused"
   end.
 
 Definition show_outcome (o : outcome) : string :=
   match o with
   | Ok => "OK"
   | TxErr c w => show_class c ++ ":" ++ show_why w
-  | Crash k => "CRASH:" ++ show_crash k
+  | Crash n => "CRASH:" ++ show_str n
   end.
 
 Fixpoint assoc {B} (k : list N) (l : list (list N * B)) (d : B) : B :=
@@ -39,16 +32,16 @@ Fixpoint assoc2 {B} (k1 k2 : list N) (l : list (list N * list N * B)) (d : B) : 
   | (a, b, v) :: l' => if str_eqb k1 a && str_eqb k2 b then v else assoc2 k1 k2 l' d
   end.
 
-Definition orc_of (re : list (list N * bool)) (dec : list (list N * dec_res))
+Definition orc_of (re : list (list N * option exc)) (dec : list (list N * option exc))
                   (ext : list (list N * list N * ext_res)) : oracles :=
-  {| o_regex := fun s => assoc s re true;
-     o_decode := fun s => assoc s dec DecOk;
+  {| o_regex := fun s => assoc s re None;
+     o_decode := fun s => assoc s dec None;
      o_ext := fun l n => assoc2 l n ext ExtMissing |}.
 
 (* outcome, then every class-reference error of the last phase (its order is abstracted, see design/C23.md) *)
-Definition show_case (c : cfg) (o : oracles) (fuel : nat) (g : ginput) : string :=
-  show_outcome (front c o fuel g) ++ "|" ++
+Definition show_case (c : cfg) (o : oracles) (user : list (list N)) (fuel : nat) (g : ginput) : string :=
+  show_outcome (front c o user fuel g) ++ "|" ++
   match g with
-  | GSyntaxError => ""
+  | GParseRaises _ => ""
   | GTree t => sjoin "," (map show_outcome (filter (fun x => match x with Ok => false | _ => true end) (cls_errors c o t)))
   end.
